@@ -65,6 +65,59 @@ def sites_in(prog, f):
     return out
 
 
+def expanded_sites(prog, f, depth=0):
+    """sites of f, plus sites of helper functions f calls whose block function / depth / array are parameters of the
+    helper (a shared `map_overlap` wrapper): these are instantiated with the caller's actual arguments."""
+    out = []
+    for s in sites_in(prog, f):
+        if s.kernel() is None and _is_param_expr(s.scope, s.call.args[0] if s.call.args else None):
+            continue    # parametric: only meaningful at its call sites
+        out.append(s)
+    if depth > 2:
+        return out
+    for n in f.own_nodes():
+        if not isinstance(n, ast.Call):
+            continue
+        h = prog.resolve_callable(f, f.module, n.func)
+        if not isinstance(h, Func) or h is f:
+            continue
+        for hs in sites_in(prog, h):
+            blk_expr = hs.call.args[0] if hs.call.args else None
+            if not _is_param_expr(h, blk_expr):
+                continue
+            bind = {}
+            for p, a in zip(h.params, n.args):
+                bind[p] = a
+            for k in n.keywords:
+                if k.arg:
+                    bind[k.arg] = k.value
+            for p, dv in h.defaults().items():
+                bind.setdefault(p, dv)
+
+            def sub(e):
+                if isinstance(e, ast.Name) and e.id in bind:
+                    return bind[e.id]
+                return None
+            blk_actual = sub(blk_expr)
+            if blk_actual is None:
+                continue
+            block = prog.resolve_callable(f, f.module, blk_actual)
+            arrays = []
+            for a in hs.arrays:
+                arrays.append(sub(a) if sub(a) is not None else a)
+            kwargs = {}
+            for k, v in hs.kwargs.items():
+                kwargs[k] = sub(v) if sub(v) is not None else v
+            ns = Site(hs.kind, n, f, block, arrays, kwargs)
+            ns.via = h
+            out.append(ns)
+    return out
+
+
+def _is_param_expr(f, e):
+    return isinstance(e, ast.Name) and (e.id in f.params or e.id in f.kwonly)
+
+
 # ------------------------------------------------------------------------------------------ footprints
 class Footprint:
     def __init__(self):
@@ -270,8 +323,28 @@ def is_nonneg(r):
     return True
 
 
-def radius_ok(depth, los, his):
+def _odd_rewrite(r, odd_arrays):
+    """shape(A, i) -> 2*(shape(A, i)//2) + 1 for arrays whose shape is validated to be odd"""
+    from .sym import subst
+
+    def f(a):
+        if isinstance(a, App) and a.name == 'shape' and a.args[0] in odd_arrays:
+            return Rat.const(2) * Rat.atom(App('floordiv', [Rat.atom(a), Rat.const(2)])) + Rat.const(1)
+        return None
+    # do not rewrite inside floordiv(shape, 2) itself
+    def g(a):
+        if isinstance(a, App) and a.name == 'floordiv':
+            return Rat.atom(a)
+        return f(a)
+    return subst(r, g)
+
+
+def radius_ok(depth, los, his, odd_arrays=()):
     """depth >= -lo and depth >= hi for all collected bounds (as constant differences >= 0)"""
+    if odd_arrays:
+        depth = _odd_rewrite(depth, odd_arrays)
+        los = [_odd_rewrite(x, odd_arrays) for x in (los or [])]
+        his = [_odd_rewrite(x, odd_arrays) for x in (his or [])]
     bad = []
     for lo in los or []:
         d = depth + lo
